@@ -374,10 +374,13 @@ def fix_starred_imports(source: str) -> str:
         return source
 
     undefined_names = get_undefined_variables(source)
+    any_untraced_name = False
     for name in undefined_names:
         if trace_result := trace_origin(name, source):
             if core.match_template(trace_result.ast, template):
                 starred_import_name_mapping[trace_result.ast].add(name)
+        elif not (name.startswith("__") and name.endswith("__")):  # __file__ is always there
+            any_untraced_name = True
 
     for node, names in starred_import_name_mapping.items():
         if names:
@@ -386,6 +389,9 @@ def fix_starred_imports(source: str) -> str:
                 names=[ast.alias(name=name, asname=None) for name in sorted(names)],
                 level=0,
             )
+
+    if any_untraced_name:
+        return  # A starred import whose module cannot be read may be what defines that name
 
     # Remove remaining starred imports
     for node in core.filter_nodes(root.body, template):
